@@ -40,12 +40,13 @@ func main() {
 		scripts := fs.String("scripts", "", "")
 		trace := fs.Bool("trace", false, "")
 		seed := fs.Uint64("seed", 1, "")
+		first := fs.Bool("first", false, "")
 		fs.Parse(os.Args[2:])
 		var names []string
 		if *scripts != "" {
 			names = strings.Split(*scripts, ",")
 		}
-		os.Exit(eng.TranscriptMain(names, *trace, *seed))
+		os.Exit(eng.TranscriptMain(names, *trace, *seed, *first))
 	case "list":
 		ids := []string{}
 		for id := range eng.Engines {
